@@ -570,12 +570,19 @@ def run(ctx, rep, cases=None):
     interior_acceptance_all(cases, results, rep)
     if fresh:
         slice_stream(ctx, rep)
+        # ShapelyPolygon against the Lean polygon model (lean/TPV/Model/Polygon.lean, Props/Polygon.lean)
+        import polygon
+        polygon.run_stream(ctx, rep)
 
 
 def replay(ctx, obj):
     rep = common.Report(ctx)
     lean = common.lean_check("C05")
     inp = (obj.get("failing_input") or obj.get("first"))["input"]
+    if inp.get("stream") == "polygon":
+        import polygon
+        polygon.replay(ctx, rep, inp)
+        return common.finish(ctx, rep, lean)
     if "point" in inp:
         case = dict(id=0, mode="replay", dom=inp["dom"], params=sorted(inp["params"].keys()), rows=[(inp["point"], inp["params"])])
         run(ctx, rep, [case])
